@@ -1,0 +1,62 @@
+//go:build verif
+
+package uapolicy
+
+// Verification hooks (build tag "verif"). Add-only; not compiled in normal builds.
+
+// VerifCipher is the set of functions a harness may plug into an EncryptionAlgorithm.
+type VerifCipher struct {
+	Enc    func([]byte) ([]byte, error)
+	Dec    func([]byte) ([]byte, error)
+	Sign   func([]byte) ([]byte, error)
+	Verify func(msg, sig []byte) error
+}
+
+type verifFn struct{ c VerifCipher }
+
+func (v verifFn) Encrypt(b []byte) ([]byte, error)   { return v.c.Enc(b) }
+func (v verifFn) Decrypt(b []byte) ([]byte, error)   { return v.c.Dec(b) }
+func (v verifFn) Signature(b []byte) ([]byte, error) { return v.c.Sign(b) }
+func (v verifFn) Verify(m, s []byte) error           { return v.c.Verify(m, s) }
+
+// VerifNewAlgorithm builds an EncryptionAlgorithm with the given sizes and functions.
+func VerifNewAlgorithm(blockSize, plaintextBlockSize, signatureLength, remoteSignatureLength, nonceLength int, c VerifCipher) *EncryptionAlgorithm {
+	f := verifFn{c}
+	return &EncryptionAlgorithm{
+		blockSize:             blockSize,
+		plainttextBlockSize:   plaintextBlockSize,
+		encrypt:               f,
+		decrypt:               f,
+		signature:             f,
+		verifySignature:       f,
+		nonceLength:           nonceLength,
+		signatureLength:       signatureLength,
+		remoteSignatureLength: remoteSignatureLength,
+	}
+}
+
+// VerifDerivedKeys exposes generateKeys for a hash-based HMAC.
+func VerifDerivedKeys(h *HMAC, seed []byte, signingLength, encryptingLength, encryptingBlockSize int) (signing, encryption, iv []byte) {
+	k := generateKeys(h, seed, signingLength, encryptingLength, encryptingBlockSize)
+	return k.signing, k.encryption, k.iv
+}
+
+// VerifAlgoKeys exposes the keys an algorithm built by Symmetric() holds, if they are of the known types.
+func VerifAlgoKeys(e *EncryptionAlgorithm) (encKey, encIV, decKey, decIV, signKey, verifyKey []byte) {
+	if a, ok := e.encrypt.(*AES); ok {
+		encKey, encIV = a.Secret, a.IV
+	}
+	if a, ok := e.decrypt.(*AES); ok {
+		decKey, decIV = a.Secret, a.IV
+	}
+	if h, ok := e.signature.(*HMAC); ok {
+		signKey = h.Secret
+	}
+	if h, ok := e.verifySignature.(*HMAC); ok {
+		verifyKey = h.Secret
+	}
+	return
+}
+
+// VerifPolicyURIs lists the registered policy URIs.
+func VerifPolicyURIs() []string { return SupportedPolicies() }
